@@ -111,6 +111,7 @@ def State.ofDump (d : Dump) : State := Id.run do
     | ["app", "maxgas"] => s := { s with maxGas := natD v }
     | ["app", "nextorder"] => s := { s with nextOrder := natD v }
     | ["app", "ncoins"] => s := { s with ncoins := natD v }
+    | ["app", "rewards"] => s := { s with rewardsPool := intD v }
     | ["app", "reward"] =>
       match vw with
       | [r, sr] => s := { s with reward := intD r, safeReward := intD sr }
